@@ -344,8 +344,92 @@ def vm_worker(args):
     return res
 
 
+# ---- interleavings with the real clock thread ------------------------------------------------------
+def sched_worker(args):
+    """The real Clock, including its own thread, under the deterministic scheduler: every interleaving
+    (within the preemption bound) of the script thread with the clock thread; delays and work are concrete,
+    time is virtual (discrete-event)."""
+    from vlib import simsched
+    delays, works, tick = args['delays'], args['works'], args['tick']
+    res = report.WorkResult('clock-thread interleavings delays=%s work=%s tick=%s' % (delays, works, tick))
+    world.start_function_trace()
+    res.sites.add('interleaving')
+    import logging
+    logging.disable(logging.CRITICAL)
+
+    def scenario(ctx):
+        s = simsched.Sched(ctx, max_preempt=args['preempt'], max_steps=1500)
+        saved = (clock_mod.time, clock_mod.threading)
+        clock_mod.time = simsched.ShimTime
+        clock_mod.threading = simsched.ShimThreading
+        try:
+            simsched.Sched.cur_sched = None
+            world.configure((), extra_settings={'sleep_time': tick})
+            simsched.Sched.cur_sched = s
+            TClock = simsched.traced(clock_mod.Clock, ['_keep_going', '_cue_time'])
+            c = TClock()
+            obs = []
+
+            def script():
+                c.start()
+                t0 = s.now
+                due = 0.0
+                for d, w in zip(delays, works):
+                    simsched.ShimTime.sleep(w) if w else None
+                    late = s.now - t0 >= due + d
+                    due += d
+                    c.pause_for(d)
+                    obs.append((s.now - t0, due, late))
+                c.stop()
+            t = s.spawn(script, 'script')
+            s.stop_when = lambda: t.done
+            left = s.run()
+            problems = []
+            if not t.done or s.out_of_steps:
+                problems.append('the script thread never gets through its delays (%s)' % (obs,))
+            if t.exc is not None:
+                problems.append('exception in the script thread: %r' % (t.exc,))
+            for i, (at, due, late) in enumerate(obs):
+                if at < due - 1e-9:
+                    problems.append('delay #%d ended at %.3f s, before the %.3f s due' % (i + 1, at, due))
+                if not late and at > due + tick + 1e-9:
+                    problems.append('delay #%d ended at %.3f s, more than one tick (%.2f) after the %.3f s due' % (i + 1, at, tick, due))
+            return problems, obs
+        finally:
+            clock_mod.time, clock_mod.threading = saved
+            simsched.Sched.cur_sched = None
+    seen = {}
+    for ctx, out in symx.explore(scenario, max_paths=args['max_paths'], timeout_ms=1000, stats=res.stats, deadline=time.time() + args['budget_s']):
+        if isinstance(out, symx.Abort):
+            res.out_of_bound += 1
+            continue
+        problems, obs = out
+        res.nontrivial += 1
+        res.reached.add('interleaving')
+        if problems:
+            key = scripth._sig_of(problems[0])[:50]
+            if key not in seen:
+                seen[key] = (problems[0], obs, [a for a, _ in ctx.trail])
+    for key, (msg, obs, trail) in seen.items():
+        rctx = symx.Ctx(prefix=trail, stats=symx.Stats())
+        symx.Ctx.cur = rctx
+        try:
+            p2 = scenario(rctx)[0]
+        except symx.Abort:
+            p2 = []
+        finally:
+            symx.Ctx.cur = None
+        res.violation('interleaving|%s' % key, '%s\n  delays %s, work before each %s, tick %s; observed (end, due, already late) %s\n  replay of the same schedule: %s'
+                      % (msg, delays, works, tick, obs, p2[:1]), inputs={'delays': delays, 'works': works, 'schedule': trail}, replayed=bool(p2))
+    if not symx.explore.last_exhaustive:
+        res.exhaustive = False
+    res.sample({'delays': delays, 'work_before_each': works, 'tick': tick})
+    res.functions = world.functions_seen()
+    return res
+
+
 def dispatch(args):
-    return clock_worker(args) if args['kind'] == 'clock' else vm_worker(args)
+    return {'clock': clock_worker, 'vm': vm_worker, 'sched': sched_worker}[args['kind']](args)
 
 
 def plans(maxlen):
@@ -376,6 +460,10 @@ def run(tier, seed):
     for mode, text, sids, due, tag in vm:
         items.append({'kind': 'vm', 'mode': mode, 'text': text, 'sids': sids, 'due': due, 'tag': tag,
                       'max_paths': 2000 if q else 20000, 'budget_s': 25 if q else 200})
+    for delays, works in (([0.3, 0.6], [0, 0]), ([0.3, 0.6], [0.1, 0.7]), ([0.25, 0.25, 0.0], [0, 0.3, 0]), ([1.0], [1.5]), ([0.1, 0.1, 0.1], [0, 0, 0])):
+        for tick in (0.25, 0.1):
+            items.append({'kind': 'sched', 'delays': delays, 'works': works, 'tick': tick, 'preempt': 2 if q else 3,
+                          'max_paths': 1500 if q else 60000, 'budget_s': 20 if q else 300})
     results, skipped = report.run_pool(dispatch, items, budget_s=common.tier_budget(tier, 70, 900))
     return report.finish(
         PROP, tier, seed, 'exploration', results, skipped,
@@ -384,6 +472,7 @@ def run(tier, seed):
              'or one script on the real VM bound to the real Clock with symbolic time registers and symbolic transmission times. z3 shows on every path: never early, '
              'within one tick when not late, immediate return with no extra delay when late, zero delay never blocks, time line restarts after a time-of-day wait',
         assumptions=['time.time, threading and datetime inside bardolph.lib.clock are stubs: the clock thread is represented by Event.wait returning at the next tick instant',
+                     'interleaving part: the real clock thread runs under the deterministic scheduler (discrete-event virtual time, <= 2/3 preemptions) with concrete delays',
                      'at most %d ticks per delay (longer waits are out of bound and counted)' % TICK_BOUND,
                      'a time-of-day wait observes its minute after 0..3 polls (choice variable)'],
         bounds={'statements': 3 if q else 5, 'ticks_per_delay': TICK_BOUND, 'delays': '0..1000 s', 'work': '0..1000 s'},
